@@ -9,6 +9,7 @@ import (
 	goerrors "github.com/ajitpratap0/GoSQLX/pkg/errors"
 	"github.com/ajitpratap0/GoSQLX/pkg/models"
 	"github.com/ajitpratap0/GoSQLX/pkg/sql/ast"
+	"github.com/ajitpratap0/GoSQLX/pkg/sql/token"
 )
 
 // isTokenMatch checks if the current token matches the given keyword
@@ -33,13 +34,27 @@ func (p *Parser) isTokenMatch(keyword string) bool {
 // currentIsLiteralToken reports whether the current token is a literal or a
 // quoted name, i.e. a token whose text can never be read as a keyword.
 func (p *Parser) currentIsLiteralToken() bool {
-	switch p.currentToken.Type {
+	return isLiteralTokenType(p.currentToken.Type)
+}
+
+func isLiteralTokenType(t models.TokenType) bool {
+	switch t {
 	case models.TokenTypeString, models.TokenTypeSingleQuotedString, models.TokenTypeDoubleQuotedString,
 		models.TokenTypeDollarQuotedString, models.TokenTypeTripleSingleQuotedString, models.TokenTypeTripleDoubleQuotedString,
 		models.TokenTypeNumber, models.TokenTypePlaceholder:
 		return true
 	}
 	return false
+}
+
+// keywordText returns the upper-cased text of a token where a keyword is
+// looked for by its spelling, and "" for a literal or a quoted name: "conflict"
+// and 'in' are not the words CONFLICT and IN.
+func keywordText(t token.Token) string {
+	if isLiteralTokenType(t.Type) {
+		return ""
+	}
+	return strings.ToUpper(t.Literal)
 }
 
 // parseCreateStatement parses CREATE statements (TABLE, VIEW, MATERIALIZED VIEW, INDEX)
